@@ -39,6 +39,7 @@ def _instance(rng, i):
         if inst["auto_pad"]:
             inst["pads"] = None
             inst["dil"] = None
+        inst["xs"] = [max(x, (k - 1) * d + 1) for x, k, d in zip(inst["xs"], inst["kernel"], inst["dil"] or [1] * n)]   # the dilated kernel must fit
     else:
         inst.update(M=rng.choice([1, 2, 3]), K=rng.choice([1, 2]), N=rng.choice([1, 2, 4]), transA=rng.random() < 0.3, transB=rng.random() < 0.4,
                     alpha=rng.choice([None, 2.0, 0.5]), gbeta=rng.choice([None, 1.0, 2.0, 0.0]),
@@ -170,7 +171,7 @@ def family(ctx):
             if inst["bias"] == "input":
                 f["b"] = t["B"]
             if inst["bias"] == "overridable":
-                f["b"] = (t["B"] + (k + 1)).astype(t["B"].dtype)      # the caller overrides the default
+                f["b"] = np.asarray(t["B"] + (k + 1), dtype=t["B"].dtype)      # the caller overrides the default
             feeds.append(f)
         reasons, _ = U.oracle(host, new, feeds, exact=True)
         if reasons:
